@@ -1588,7 +1588,7 @@ class Engine(object):
             src = self.list_arr(st, obj)
             arr = fresh('slice', z3.ArraySort(z3.IntSort(), sort_of(t.elem)))
             j = fresh('j', z3.IntSort())
-            st.assume(z3.ForAll([j], z3.Implies(z3.And(0 <= j, j < m), z3.Select(arr, j) == z3.Select(src, a + j))))
+            st.assume(z3.ForAll([j], z3.Implies(z3.And(0 <= j, j < m), z3.Select(arr, j) == z3.Select(src, a + j)), patterns=[z3.Select(arr, j)]))
             self.list_set_raw(st, r, m, arr)
             return r
         if isinstance(t, TupleT):
@@ -1634,13 +1634,29 @@ class Engine(object):
             for st1, nv in self.ev(src.args[0], st, ctx):
                 yield st1, self.fresh_block(st1, hint, self.coerce(nv, INT).z)
             return
+        zipped = None
+        if isinstance(src, ast.Call) and isinstance(src.func, ast.Name) and src.func.id == 'zip' and len(src.args) == 2 and not src.keywords:
+            # zip(a, b) of two lists: positions 0 .. min(len(a), len(b)) - 1, item = (a[j], b[j])
+            zipped = src.args
+            src = ast.Tuple(elts=list(src.args), ctx=ast.Load())
         for st1, seq in self.ev(src, st, ctx):
-            seq = self.iter_source(ctx, st1, seq)
-            if not isinstance(seq.ty, ListT):
-                raise Unsupported('list comprehension over %r' % (seq.ty,))
-            n = self.list_len(st1, seq)
-            st1.assume(n >= 0)
-            arr = self.list_arr(st1, seq)
+            if zipped is not None:
+                seqs = [self.iter_source(ctx, st1, x) for x in self.tuple_items(seq)]
+                if not all(isinstance(x.ty, ListT) for x in seqs):
+                    raise Unsupported('list comprehension over zip of %r' % ([x.ty for x in seqs],))
+                for x in seqs:
+                    self.safe(ctx, st1, x.z != 0, 'TypeError', 'zip of None')
+            else:
+                seq = self.iter_source(ctx, st1, seq)
+                if not isinstance(seq.ty, ListT):
+                    raise Unsupported('list comprehension over %r' % (seq.ty,))
+                seqs = [seq]
+            lens = [self.list_len(st1, x) for x in seqs]
+            for ln in lens:
+                st1.assume(ln >= 0)
+            n = lens[0] if len(lens) == 1 else z3.If(lens[0] <= lens[1], lens[0], lens[1])
+            arrs = [self.list_arr(st1, x) for x in seqs]
+            arr = arrs[0]
             jv = fresh('lc!j', z3.IntSort())
 
             def at(pos, want_cond, want_elt):
@@ -1648,12 +1664,16 @@ class Engine(object):
                 tmp = st1.fork()
                 tmp.assume(z3.And(0 <= pos, pos < n))
                 n0 = len(tmp.pc)
-                z = z3.Select(arr, pos)
-                self.ref_fact(tmp, seq.ty.elem, z)
-                self.elem_fact(tmp, seq.ty.elem, z)
-                item = SV(seq.ty.elem, z)
-                if isinstance(seq.ty.elem, Ref):
-                    self.type_fact(tmp, item)
+                items = []
+                for sq, ar in zip(seqs, arrs):
+                    z = z3.Select(ar, pos)
+                    self.ref_fact(tmp, sq.ty.elem, z)
+                    self.elem_fact(tmp, sq.ty.elem, z)
+                    it = SV(sq.ty.elem, z)
+                    if isinstance(sq.ty.elem, Ref):
+                        self.type_fact(tmp, it)
+                    items.append(it)
+                item = items[0] if zipped is None else self.mk_tuple(items)
                 val = self.mk_tuple([SV(INT, pos), item]) if enum else item
                 saved = {}
                 names = [x.id for x in ast.walk(gen.target) if isinstance(x, ast.Name)]
